@@ -474,7 +474,15 @@ def run(ctx):
         if fn.name == 'add_plan_step':
             for n in ast.walk(fn):
                 if isinstance(n, ast.Call) and dotted(n.func) == 'isinstance' and len(n.args) == 2:
-                    ts = n.args[1].elts if isinstance(n.args[1], ast.Tuple) else [n.args[1]]
+                    cls_arg = n.args[1]
+                    if isinstance(cls_arg, (ast.Name, ast.Attribute)):
+                        # a tuple of classes kept in a module-level / class-level constant
+                        cname = cls_arg.id if isinstance(cls_arg, ast.Name) else cls_arg.attr
+                        for a_ in ast.walk(ctx.src.tree(f)):
+                            if isinstance(a_, ast.Assign) and len(a_.targets) == 1 and isinstance(a_.targets[0], ast.Name) and a_.targets[0].id == cname \
+                                    and isinstance(a_.value, ast.Tuple):
+                                cls_arg = a_.value
+                    ts = cls_arg.elts if isinstance(cls_arg, ast.Tuple) else [cls_arg]
                     part_kinds |= {(dotted(t) or '').split('.')[-1] for t in ts} & step_classes
     ctx.need(part_kinds, 'add_plan_step: the kinds of steps that go into a partition were not found')
     ret_kinds = {}          # function -> step classes it can return
@@ -606,7 +614,14 @@ def check_stale_reference(ctx, ci, f):
 
     def kinds_of(test):
         if isinstance(test, ast.Call) and dotted(test.func) == 'isinstance' and len(test.args) == 2 and norm(test.args[0]) == stepvar:
-            ts = test.args[1].elts if isinstance(test.args[1], ast.Tuple) else [test.args[1]]
+            cls_arg = test.args[1]
+            if isinstance(cls_arg, (ast.Name, ast.Attribute)):
+                cname = cls_arg.id if isinstance(cls_arg, ast.Name) else cls_arg.attr
+                for a_ in ast.walk(ctx.src.tree(f)):        # a tuple of classes kept in a module-level / class-level constant
+                    if isinstance(a_, ast.Assign) and len(a_.targets) == 1 and isinstance(a_.targets[0], ast.Name) and a_.targets[0].id == cname \
+                            and isinstance(a_.value, ast.Tuple):
+                        cls_arg = a_.value
+            ts = cls_arg.elts if isinstance(cls_arg, ast.Tuple) else [cls_arg]
             return {(dotted(t) or '').split('.')[-1] for t in ts}
         return None
 
